@@ -81,7 +81,7 @@ impl TypeChecker {
             Declaration::Import(_) => {} // Already handled
             Declaration::Const(konst) => self.check_const(konst, decl.span),
             Declaration::Model(model) => self.check_model(model),
-            Declaration::Class(class) => self.check_class(class),
+            Declaration::Class(class) => self.check_class(class, decl.span),
             Declaration::Trait(tr) => self.check_trait(tr),
             Declaration::Newtype(nt) => self.check_newtype(nt),
             Declaration::Enum(en) => self.check_enum(en),
@@ -312,7 +312,7 @@ impl TypeChecker {
         }
     }
 
-    fn check_class(&mut self, class: &ClassDecl) {
+    fn check_class(&mut self, class: &ClassDecl, decl_span: Span) {
         self.symbols.enter_scope(ScopeKind::Class);
 
         // Validate @derive decorators
@@ -322,6 +322,37 @@ impl TypeChecker {
         if let Some(base) = &class.extends {
             if self.symbols.lookup(base).is_none() {
                 self.errors.push(errors::unknown_symbol(base, Span::default()));
+            } else {
+                // A class must not (transitively) extend itself: the inherited fields and methods of a cyclic
+                // chain are not defined (and lowering would never finish collecting them).
+                let mut chain: Vec<String> = vec![class.name.clone()];
+                let mut current = Some(base.clone());
+                while let Some(name) = current {
+                    if name == class.name {
+                        chain.push(name);
+                        self.errors.push(CompileError::type_error(
+                            format!(
+                                "Class '{}' inherits from itself (cyclic `extends` chain: {})",
+                                class.name,
+                                chain.join(" -> ")
+                            ),
+                            decl_span,
+                        ));
+                        break;
+                    }
+                    if chain.contains(&name) {
+                        // A cycle further up the chain: reported on the classes that form it.
+                        break;
+                    }
+                    current = match self.symbols.lookup(&name).and_then(|id| self.symbols.get(id)) {
+                        Some(Symbol {
+                            kind: SymbolKind::Type(TypeInfo::Class(info)),
+                            ..
+                        }) => info.extends.clone(),
+                        _ => None,
+                    };
+                    chain.push(name);
+                }
             }
         }
 
